@@ -244,6 +244,16 @@ def random_purif_point(rng, nvmax=4, nhmax=4, namax=4, budget=1700, small=False,
         m = max(2, min(top, (budget - 3 * (npar - pt["nv"])) // pt["nv"]))
         pt["b"] = [-rng.randint(max(1, (2 * m) // 3), m) for _ in range(pt["nv"])]
         return pt
+    if strong and not small and rng.random() < 0.05:
+        # a decoupled auxiliary unit: its row of U is EXACTLY zero in both networks (a pruned unit, weights from a small
+        # discrete set) while its bias is not - the unit still contributes its factor 1 + e^d to every entry
+        pt = random_purif_point(rng, nvmax, nhmax, max(2, namax), budget, small)
+        while pt["na"] < 2:
+            pt = random_purif_point(rng, nvmax, nhmax, max(2, namax), budget, small)
+        k = rng.randrange(pt["na"])
+        pt["u"][k] = [0] * pt["nv"]
+        pt["um"][k] = [0] * pt["nv"]
+        return pt
     if strong and not small and rng.random() < 0.04:
         # strong mixing: every auxiliary unit pulls the same way with a large coupling, so that the auxiliary
         # factor of rho is huge (Re Pi of several hundred) while every entry stays representable
